@@ -267,15 +267,22 @@ func (st *state) openInstance(id, backend, dir string, fresh bool) string {
 	return "ok"
 }
 
-func (st *state) dump() string {
+func (st *state) dump(liveOnly bool) string {
 	in := st.cur()
 	var parts []string
+	now := time.Now().UnixMilli()
 	for _, e := range in.n.VerifIndex() {
+		if liveOnly && e.Exp != 0 && e.Exp <= now {
+			continue
+		}
 		val := "unreadable"
 		if e.Value != nil {
 			val = dumpVal(e.Value)
 		}
 		parts = append(parts, fmt.Sprintf("%s@%d{%s}", showBytes([]byte(e.Name)), e.Exp, val))
+	}
+	if liveOnly {
+		return compact("ldump " + strings.Join(parts, " "))
 	}
 	return compact("dump " + strings.Join(parts, " "))
 }
@@ -315,7 +322,9 @@ func (st *state) apiOp(toks []string) (out string, annot string) {
 		time.Sleep(time.Duration(ms) * time.Millisecond)
 		return "ok", ""
 	case "dump":
-		return st.dump(), fmt.Sprintf(" now=%d", time.Now().UnixMilli())
+		return st.dump(false), fmt.Sprintf(" now=%d", time.Now().UnixMilli())
+	case "ldump": // logical keyspace: records whose deadline has not passed
+		return st.dump(true), fmt.Sprintf(" now=%d", time.Now().UnixMilli())
 	case "api":
 		now := time.Now().UnixMilli()
 		o, raw := callAPI(st.cur().n, toks[1], toks[2:])
